@@ -1,9 +1,11 @@
 """selftest - is the binding between the recorded traces and the specifications tight?
 
 For every trace-validated check a trace recorded from the real code (accepted by its trace specification) is corrupted in one place
-- a line dropped, duplicated or swapped with its neighbour, one logged field altered - and validated again.  A corruption that is still
-accepted shows a field or an ordering the specification does not constrain.  The result (evidence/selftest.json) is a report about the
-machinery, not a verdict about fingerproxy; it fails (exit 1) only if a trace specification rejects almost nothing, i.e. constrains length only.
+and validated again.  Only *observations* are corrupted - events and fields that report what the implementation did (a popped frame, a
+DATA frame received, a counted label, the encoder's bytes as parsed) - not the driver's own inputs (a WINDOW_UPDATE it chose to send is
+whatever it says it is).  An observation event is dropped, duplicated or swapped with the next one, or one observed field (a leaf of a
+nested value) is altered.  A corruption that is still accepted shows a field or an ordering the specification does not constrain.  The result (evidence/selftest.json) is a report about the
+machinery, not a verdict about fingerproxy; it fails (exit 1) if a trace specification rejects fewer than 70% of the corrupted observations.
 
     ./check selftest            (quick: 60 corruptions per specification; thorough: 300)
 """
@@ -27,6 +29,15 @@ TARGETS = [
     ('C20', None, 'Trace_WriteSched', None, 'trace_c20.ndjson', ()),
 ]
 MAXLINES = 700
+
+# per check: observation events (None = every event) -> observed fields (None = every field but op); 'structural' = may the event be dropped / duplicated / swapped
+OBS = {
+    'C16': {'ops': None, 'fields': None, 'structural': True},
+    'C12': {'ops': {'data': None, 'rst': None, 'goaway': None, 'srv_wu': None, 'drained': None, 'initwin_ack': None}, 'structural': True},
+    'C08': {'ops': {'up': None, 'up_end': None, 'down': None, 'down_end': None}, 'structural': True},
+    'C18': {'ops': {'write': ['wire', 'emitted', 'derr', 'etab', 'emax', 'dtab', 'dmax'], 'setmax': ['etab', 'emax'], 'endblock': ['err']}, 'structural': False},
+    'C20': {'ops': {'pop': None}, 'structural': True},
+}
 
 
 def record(ctx, check):
@@ -70,14 +81,40 @@ def run_tlc(specdir, workdir, module, cfg, dest, lines, idx):
     return {'matched': int(m.group(1)), 'total': int(m.group(2)), 'invariant': inv.group(1) if inv else None}
 
 
-def corrupt(lines, rng, pools):
-    """one corruption; returns (new lines, description) or None"""
-    cand = [i for i, ln in enumerate(lines) if '"op":"reset"' not in ln and '"op":"end"' not in ln]
+def leaves(v, path=()):
+    """paths of the scalar leaves of a nested JSON value"""
+    if isinstance(v, dict):
+        for k, x in v.items():
+            yield from leaves(x, path + (k,))
+    elif isinstance(v, list):
+        for i, x in enumerate(v):
+            yield from leaves(x, path + (i,))
+    else:
+        yield path, v
+
+
+def set_leaf(v, path, new):
+    for k in path[:-1]:
+        v = v[k]
+    v[path[-1]] = new
+
+
+def corrupt(lines, rng, pools, obs):
+    """one corruption of an observation; returns (new lines, description) or None"""
+    ops = obs['ops']
+    cand = []
+    for i, ln in enumerate(lines):
+        if '"op":"reset"' in ln or '"op":"end"' in ln:
+            continue
+        op = json.loads(ln).get('op')
+        if ops is None or op in ops:
+            cand.append(i)
     if not cand:
         return None
     i = rng.choice(cand)
     ev = json.loads(lines[i])
-    kind = rng.choice(['drop', 'dup', 'swap', 'field', 'field', 'field'])
+    kinds = ['field', 'field', 'field'] + (['drop', 'dup', 'swap'] if obs['structural'] else [])
+    kind = rng.choice(kinds)
     new = list(lines)
     if kind == 'drop':
         del new[i]
@@ -90,22 +127,23 @@ def corrupt(lines, rng, pools):
             return None
         new[i], new[i + 1] = new[i + 1], new[i]
         return new, {'how': 'swap', 'op': ev.get('op'), 'with': json.loads(lines[i + 1]).get('op'), 'line': i}
-    fields = [k for k in ev if k != 'op']
-    if not fields:
+    allowed = None if ops is None else ops.get(ev.get('op'))
+    lv = [(p, v) for p, v in leaves(ev) if p and p[0] != 'op' and (allowed is None or p[0] in allowed)]
+    if not lv:
         return None
-    k = rng.choice(fields)
-    v = ev[k]
+    path, v = rng.choice(lv)
     if isinstance(v, bool):
-        ev[k] = not v
+        nv = not v
     elif isinstance(v, (int, float)):
-        ev[k] = v + rng.choice([1, -1]) if v > 0 else v + 1
+        nv = v + rng.choice([1, -1]) if v > 0 else v + 1
     elif isinstance(v, str):
-        others = [x for x in pools.get(k, []) if x != v]
-        ev[k] = rng.choice(others) if others else v + 'x'
+        others = [x for x in pools.get(path[-1] if isinstance(path[-1], str) else path[0], []) if x != v]
+        nv = rng.choice(others) if others else v + 'x'
     else:
         return None
+    set_leaf(ev, path, nv)
     new[i] = json.dumps(ev, separators=(',', ':'))
-    return new, {'how': 'field', 'op': ev.get('op'), 'field': k, 'from': v, 'to': ev[k], 'line': i}
+    return new, {'how': 'field', 'op': ev.get('op'), 'field': '.'.join(str(x) for x in path), 'from': v, 'to': nv, 'line': i}
 
 
 def run(ctx):
@@ -153,16 +191,17 @@ def run(ctx):
                 raise vf.Inconclusive('%s: the uncorrupted trace prefix is not accepted (%s)' % (check, b))
             pools = {}
             for ln in base:
-                for k, v in json.loads(ln).items():
-                    if isinstance(v, str) and k != 'op':
+                for path, v in leaves(json.loads(ln)):
+                    k = path[-1] if path and isinstance(path[-1], str) else (path[0] if path else None)
+                    if isinstance(v, str) and k and k != 'op':
                         pools.setdefault(k, [])
-                        if v not in pools[k]:
+                        if v not in pools[k] and len(pools[k]) < 50:
                             pools[k].append(v)
             jobs = []
             tries = 0
             while len(jobs) < n and tries < 20 * n:
                 tries += 1
-                c = corrupt(base, rng, pools)
+                c = corrupt(base, rng, pools, OBS[check])
                 if c:
                     jobs.append(c)
             def one(args):
@@ -179,13 +218,13 @@ def run(ctx):
             unknown = [d for d, r in results if not r]
             by = {}
             for d in accepted:
-                key = '%s %s%s' % (d['how'], d['op'], ('.' + d['field']) if d.get('field') else '')
+                key = '%s %s%s' % (d['how'], d['op'], ('.' + re.sub(r'\.\d+', '[]', d['field'])) if d.get('field') else '')
                 by[key] = by.get(key, 0) + 1
             entry = {'check': check, 'spec': module, 'trace_lines': len(base), 'corruptions': len(results), 'rejected': len(rejected), 'accepted': len(accepted),
                      'no_verdict': len(unknown), 'accepted_by_kind': dict(sorted(by.items(), key=lambda kv: -kv[1])), 'accepted_examples': accepted[:8]}
             report.append(entry)
             print('selftest %s (%s): %d lines, %d corruptions, %d rejected, %d still accepted %s' % (check, module, len(base), len(results), len(rejected), len(accepted), entry['accepted_by_kind']))
-            if results and len(rejected) < 0.5 * len(results):
+            if results and len(rejected) < 0.7 * len(results):
                 weak.append(check)
         finally:
             shutil.rmtree(sd, ignore_errors=True)
@@ -195,7 +234,7 @@ def run(ctx):
     os.makedirs(os.path.join(vf.VERIF, 'evidence'), exist_ok=True)
     json.dump(out, open(os.path.join(vf.VERIF, 'evidence', 'selftest.json'), 'w'), indent=1, default=str)
     if weak:
-        print('SELFTEST-WEAK: trace specifications rejecting fewer than half of the corruptions: %s' % weak)
+        print('SELFTEST-WEAK: trace specifications rejecting fewer than 70% of the corrupted observations: %s' % weak)
         return 1
     print('OK selftest')
     return 0
